@@ -12,7 +12,7 @@
  */
 #include "hcommon.h"
 
-enum { F_BB, F_GATE, F_TURN, F_STRAY, F_SEM, F_BBB, F_ACK };
+enum { F_BB, F_GATE, F_TURN, F_STRAY, F_SEM, F_BBB, F_ACK, F_BIGGATE };
 typedef struct { int fam, a, b, n, W, K; } prog_t;
 #define MAXP 400
 static prog_t P[2][MAXP]; static int NP[2];
@@ -32,6 +32,7 @@ static void build(void) {
       add(tier, F_STRAY, 0, 0, 0, W, k);
       add(tier, F_SEM, 2, 2, 0, W, W == 1 ? k : 2); add(tier, F_SEM, 1, 1, 0, W, k); if (tier) add(tier, F_SEM, 3, 3, 0, W, 1);
       if (W >= 2) { add(tier, F_ACK, 1, 0, 0, W, W == 2 ? k : 2); add(tier, F_ACK, 2, 0, 0, W, 2); }
+      add(tier, F_BIGGATE, tier ? 260 : 130, 0, 0, W, 0);   /* many more waiters than any batch size of the wake-up path: one schedule each */
       add(tier, F_BBB, 1, 1, 2, W, k); add(tier, F_BBB, 2, 2, 2, W, tier ? 2 : 1); add(tier, F_BBB, 1, 2, 2, W, W == 1 ? k : 2);
     }
   }
@@ -46,6 +47,7 @@ static void describe(int tier, int prog, char * b, size_t n) {
   case F_TURN: snprintf(b, n, "turnstile threads=%d (broadcast)", p->a); break;
   case F_SEM: snprintf(b, n, "semaphore producers=%d consumers=%d (signal after unlock)", p->a, p->b); break;
   case F_BBB: snprintf(b, n, "bounded-buffer on one cond, producers=%d consumers=%d items=%d (broadcast after unlock)", p->a, p->b, p->n); break;
+  case F_BIGGATE: snprintf(b, n, "gate with %d waiters, all blocked when the one broadcast is issued", p->a); break;
   case F_ACK: snprintf(b, n, "signaler keeps its worker until %d signalled waiter(s) acknowledged (resumed on another worker)", p->a); break;
   default: snprintf(b, n, "stray signal before any waiter"); break;
   }
@@ -54,7 +56,7 @@ static void describe(int tier, int prog, char * b, size_t n) {
 static prog_t * cur;
 static myth_mutex_t m; static myth_cond_t c0, c1;
 static volatile int occ, full, slot, produced, consumed_sum, consumed_n, opened, turn, flag, stray_woke;
-static volatile int passed[4];
+static volatile int passed[4]; static volatile int big_waiting, big_passed;
 
 static void held_witness(const char * where) {
   occ++; mv_point(&occ, sizeof occ);
@@ -112,6 +114,14 @@ static void * gate_waiter(void * a) {
   myth_mutex_lock(&m);
   while (!opened) { myth_cond_wait(&c0, &m); held_witness("gate waiter after wait"); mv_cover(2); }
   passed[me] = 1;
+  myth_mutex_unlock(&m);
+  return 0;
+}
+static void * big_gate_waiter(void * a) {
+  (void)a;
+  myth_mutex_lock(&m); big_waiting++;
+  while (!opened) myth_cond_wait(&c0, &m);
+  big_passed++;
   myth_mutex_unlock(&m);
   return 0;
 }
@@ -183,6 +193,14 @@ static void run(int tier, int prog) {
     for (int i = 0; i < nt; i++) myth_join(th[i], 0);
     for (int i = 0; i < cur->a; i++) MV_CHECK(passed[i], "waiter %d did not pass the gate", i);
     break;
+  case F_BIGGATE: {
+    static myth_thread_t big[300]; int n = mv_is_fine ? 12 : cur->a;   /* fine mode multiplies the steps: a dozen waiters there */
+    for (int i = 0; i < n; i++) big[i] = myth_create(big_gate_waiter, 0);
+    for (;;) { myth_mutex_lock(&m); int w = big_waiting; myth_mutex_unlock(&m); if (w >= n) break; myth_yield(); }   /* counted under the mutex, given up only by waiting */
+    myth_mutex_lock(&m); opened = 1; myth_cond_broadcast(&c0); myth_mutex_unlock(&m);
+    for (int i = 0; i < n; i++) myth_join(big[i], 0);
+    MV_CHECK(big_passed == n, "%d of %d waiters passed the gate after the broadcast", big_passed, n);
+    break; }
   case F_TURN:
     for (int i = cur->a - 1; i >= 0; i--) th[nt++] = myth_create(turn_thread, (void *)(long)i);
     for (int i = 0; i < nt; i++) myth_join(th[i], 0);
